@@ -25,6 +25,88 @@ OPS = [
  ("uxsend", "unix_send_to", "UnixSendTo<'static>", f"UnixSendTo {{ io_data: io, buf: {BUF}, socket: {UXD}, path: std::path::Path::new(\"/x\"), timeout: {TO}, is_coroutine: true }}", False, "opt", "a blocked Unix datagram send"),
  ("uxconnect", "unix_stream_connect", "UnixStreamConnect", f"UnixStreamConnect {{ io_data: OptionCell::new(ios::io_clone(io)), stream: OptionCell::new({SOCK}), path: socket2::SockAddr::from(std::net::SocketAddr::from(([127, 0, 0, 1], 80))), is_connected: false, is_coroutine: true }}", True, "always", "a blocked Unix connect"),
 ]
+ERR = "Err(std::io::Error::from_raw_os_error"
+def sys_body(wb, ok):
+    okarm = f"1 => {ok}," if ok else "1 => unreachable!(),"
+    return f"""    match ios::syscall_step() {{
+        0 => {ERR}({wb})),
+        {okarm}
+        _ => {ERR}(ios::FATAL)),
+    }}"""
+ADDR = "SocketAddr::from(([127, 0, 0, 1], 80))"
+# name -> (kani stub target, stub fn signature, would-block errno, Ok expression or None, result type, check_ok body)
+SYS = {
+ "peek": ("nix::sys::socket::recv", "fn sys_stub(_fd: std::os::fd::RawFd, _buf: &mut [u8], _f: MsgFlags) -> nix::Result<usize>", None, None, "usize", "*v == unsafe { ios::OK_N }"),
+ "accept": ("std::net::TcpListener::accept", "fn sys_stub(_s: &std::net::TcpListener) -> io::Result<(std::net::TcpStream, SocketAddr)>", "libc::EAGAIN", None, "(TcpStream, SocketAddr)", "false"),
+ "connect": ("socket2::Socket::connect", "fn sys_stub(_s: &Socket, _a: &socket2::SockAddr) -> io::Result<()>", "libc::EINPROGRESS", None, "TcpStream", "false"),
+ "udprecv": ("std::net::UdpSocket::recv_from", "fn sys_stub(_s: &std::net::UdpSocket, _b: &mut [u8]) -> io::Result<(usize, SocketAddr)>", "libc::EAGAIN", f"Ok((unsafe {{ ios::OK_N }}, {ADDR}))", "(usize, SocketAddr)", "v.0 == unsafe { ios::OK_N } && v.1.port() == 80"),
+ "udpsend": ("std::net::UdpSocket::send_to", "fn sys_stub<A: std::net::ToSocketAddrs>(_s: &std::net::UdpSocket, _b: &[u8], _a: A) -> io::Result<usize>", "libc::EAGAIN", "Ok(unsafe { ios::OK_N })", "usize", "*v == unsafe { ios::OK_N }"),
+ "uxaccept": ("std::os::unix::net::UnixListener::accept", "fn sys_stub(_s: &std::os::unix::net::UnixListener) -> io::Result<(std::os::unix::net::UnixStream, std::os::unix::net::SocketAddr)>", "libc::EAGAIN", None, "(UnixStream, std::os::unix::net::SocketAddr)", "false"),
+ "uxrecv": ("std::os::unix::net::UnixDatagram::recv_from", "fn sys_stub(_s: &std::os::unix::net::UnixDatagram, _b: &mut [u8]) -> io::Result<(usize, std::os::unix::net::SocketAddr)>", "libc::EAGAIN", None, "(usize, std::os::unix::net::SocketAddr)", "false"),
+ "uxsend": ("std::os::unix::net::UnixDatagram::send_to", "fn sys_stub<P: AsRef<std::path::Path>>(_s: &std::os::unix::net::UnixDatagram, _b: &[u8], _p: P) -> io::Result<usize>", "libc::EAGAIN", "Ok(unsafe { ios::OK_N })", "usize", "*v == unsafe { ios::OK_N }"),
+ "uxconnect": ("socket2::Socket::connect", "fn sys_stub(_s: &Socket, _a: &socket2::SockAddr) -> io::Result<()>", "libc::EINPROGRESS", None, "UnixStream", "false"),
+}
+def gen_done(name, ty, what):
+    if name not in SYS:
+        return ""
+    target, sig, wb, ok, rty, chk = SYS[name]
+    tname = ty.split("<")[0]
+    if name == "peek":
+        body = """    match ios::syscall_step() {
+        0 => Err(nix::errno::Errno::EAGAIN),
+        1 => Ok(unsafe { ios::OK_N }),
+        _ => Err(nix::errno::Errno::ECONNRESET),
+    }"""
+        ok_allowed = True
+    else:
+        body = sys_body(wb, ok)
+        ok_allowed = ok is not None
+    # every dropped std::io::Error drags the bit-packed Repr decoding (int -> pointer -> int) and the Box<dyn Error> drop glue
+    # into the verification condition: 600 s time-outs / 14 GB. Only the operations that compare the nix Errno are in reach.
+    tierline = ""
+    okn = "five concrete kernel scripts (error at once; would-block then error with / without a readiness edge after the failed attempt; two would-blocks; a pending result)" + (" plus would-block then success and success at once" if ok_allowed else "; the success path, which builds a new socket object, is NOT under contract")
+    head_txt = f"""
+{sig} {{
+{body}
+}}
+fn call_done(s: &mut {ty}) -> io::Result<{rty}> {{
+    s.done()
+}}
+#[allow(unused_variables)]
+fn check_ok(v: &{rty}) -> bool {{
+    {chk}
+}}
+
+"""
+    out = head_txt
+    scen = [(0, "would-block, then a fatal error, no readiness edge: the caller suspends exactly once and returns that OS error"),
+            (1, "would-block with a readiness edge right after the failed attempt: the caller retries WITHOUT suspending"),
+            (2, "a pending time-out / cancel result: returned before any syscall")]
+    if ok_allowed:
+        scen.append((3, "would-block, then success: the kernel's result is returned verbatim"))
+    for n, txt in scen:
+        out += f"""
+//@ obligation: C17.6{name}.e{n}
+//@ property: C17
+//@ kind: K3
+//@ complete: no
+//@ bound: one concrete kernel script per obligation (stale readiness flag on entry){"" if ok_allowed else "; the success path, which builds a new socket object, is NOT under contract"}
+//@ functions: {tname}::done, co_io_result (coroutine branch)
+//@ statement: caller side of {what} in coroutine context, script [{txt}]: the readiness flag is cleared before every syscall; after
+//@ statement: would-block the flag is re-checked and the caller suspends only with the flag clear; the final kernel result is returned verbatim
+#[kani::proof]
+#[kani::stub(crate::scheduler::get_scheduler, sup::get_scheduler_stub)]
+#[kani::stub(<crate::park::Park as std::ops::Drop>::drop, sup::park_drop_noop)]
+#[kani::stub({target}, sys_stub)]
+#[kani::stub(crate::io::sys::co_io_result, ios::co_io_result_coroutine_branch)]
+#[kani::stub(crate::yield_now::yield_with_io, ios::yield_stub)]
+#[kani::unwind(4)]
+fn c17_6{name}_e{n}() {{
+    ios::done_scenario_n::<{ty}, {rty}, {n}, _, _, _>(mk, call_done, check_ok);
+}}
+"""
+    return out
+
 STUBS = """#[kani::proof]
 #[kani::stub(crate::scheduler::get_scheduler, sup::get_scheduler_stub)]
 #[kani::stub(crate::scheduler::Scheduler::schedule, sup::schedule_stub)]
@@ -66,7 +148,7 @@ fn mk(io: &'static IoData, timed: bool) -> {ty} {{
 //@ statement: the flag and resumes the coroutine itself exactly once; a timer is armed iff the operation has a time-out, and before the coroutine is published
 {STUBS}#[kani::unwind(3)]
 fn c17_6{name}_a() {{
-    ios::subscribe_from::<{ty}, true, false, {t_ready}>(mk);
+    ios::subscribe_from::<{ty}, true, false, {t_ready}, _>(mk);
 }}
 
 //@ obligation: C17.6{name}.c
@@ -77,7 +159,7 @@ fn c17_6{name}_a() {{
 //@ statement: worker side of {what}, pre-state [nothing pending]: the coroutine stays published in the I/O slot for the selector and nothing is scheduled
 {STUBS}#[kani::unwind(3)]
 fn c17_6{name}_c() {{
-    ios::subscribe_from::<{ty}, false, false, {t_idle}>(mk);
+    ios::subscribe_from::<{ty}, false, false, {t_idle}, _>(mk);
 }}
 
 //@ obligation: C17.6{name}.d
@@ -89,7 +171,7 @@ fn c17_6{name}_c() {{
 {STUBS}#[kani::stub(std::sync::atomic::Atomic::<usize>::load, ios::flag_load_checks_publication)]
 #[kani::unwind(3)]
 fn c17_6{name}_d() {{
-    ios::subscribe_order::<{ty}>(mk);
+    ios::subscribe_order::<{ty}, _>(mk);
 }}
 """
     if cancellable:
@@ -103,10 +185,10 @@ fn c17_6{name}_d() {{
 //@ statement: object, re-checks the cancel bit and the coroutine is taken out of the I/O slot and rescheduled exactly once
 {STUBS}#[kani::unwind(3)]
 fn c17_6{name}_b() {{
-    ios::subscribe_from::<{ty}, false, true, {t_idle}>(mk);
+    ios::subscribe_from::<{ty}, false, true, {t_idle}, _>(mk);
 }}
 """
-    return out
+    return out + gen_done(name, ty, what)
 for op in OPS:
     open(os.path.join(VERIF, "kani", "may", f"c17_op_{op[0]}.rs"), "w").write(gen(*op))
 print("generated", len(OPS))
